@@ -27,7 +27,7 @@ func (c08) NumCases(tier string) int {
 	if tier == "thorough" {
 		return 150000
 	}
-	return 6000
+	return 18000
 }
 
 func (p c08) Gen(seed uint64, tier string, idx int) (*Case, bool) {
